@@ -153,6 +153,11 @@ class ExtModule:
         self.name = name
 
 
+class PyModel:
+    """base class of hand-written models of library objects (an abstract data frame, a file content ...):
+    attribute access and calls go straight to the python object"""
+
+
 class LogRecord:
     def __init__(self, level, msg):
         self.level, self.msg = level, msg
@@ -214,6 +219,14 @@ class Interp:
                     o.f[k] = kwargs.pop(k)
                 else:
                     kwargs.pop(k)      # pydantic's default: extra keyword arguments are ignored
+        for c in reversed(self.p.mro(cls)):
+            for f in c.methods.values():
+                if f.validator_kind == "field":
+                    deco = next(d for d in f.node.decorator_list if ast.unparse(d).startswith("field_validator"))
+                    names = [a.value for a in deco.args if isinstance(a, ast.Constant)] if isinstance(deco, ast.Call) else []
+                    for fn_ in names:
+                        if fn_ in kwargs:
+                            kwargs[fn_] = self.call_fn(f, [cls, kwargs[fn_]], {})
         for fname, (ann, dflt, owner) in fields.items():
             private = fname.startswith("_")
             if fname in kwargs and not private:
@@ -261,7 +274,9 @@ class Interp:
                 for x in value:
                     if not (isinstance(x, Obj) and ic in self.p.mro(x.cls)):
                         raise PyRaise("ValidationError", node, f"{cls.name}.{fname}: list items must be {ic.name}")
-            return ItemList(value) if isinstance(value, ItemList) else list(value)   # validation builds a new list
+            if isinstance(value, ItemList) or (fname == "items" and any(c.name == "Dimension" for c in self.p.mro(cls))):
+                return ItemList(value)      # the items of a dimension: their number and positions are abstract (tainted)
+            return list(value)   # validation builds a new list
         if head in ("dict", "Dict"):
             if not isinstance(value, dict):
                 raise PyRaise("ValidationError", node, f"{cls.name}.{fname}: a dict is required")
@@ -500,6 +515,11 @@ class Interp:
             raise PyRaise("AttributeError", node, f"'{type(v).__name__}' object has no attribute '{name}'")
         if v is None:
             raise PyRaise("AttributeError", node, f"'NoneType' object has no attribute '{name}'")
+        if isinstance(v, PyModel):
+            try:
+                return getattr(v, name)
+            except AttributeError:
+                raise PyRaise("AttributeError", node, f"'{type(v).__name__}' object has no attribute '{name}'")
         if isinstance(v, slice):
             if name in ("start", "stop", "step"):
                 return getattr(v, name)
@@ -664,7 +684,11 @@ class Interp:
         if name in ("max", "min", "amax", "amin", "nanmax", "nanmin"):
             return lambda a, axis=None, **kw: NP.reduce_all(a, name) if axis is None else (_ for _ in ()).throw(AnalysisAbort("np.max with axis"))
         if name in ("any", "all"):
-            return lambda a, axis=None: NP.reduce_all(a, name)
+            def anyall(a, axis=None, _n=name):
+                if isinstance(a, (list, tuple)) and all(isinstance(x, (bool, int)) for x in a):
+                    return any(a) if _n == "any" else all(a)
+                return NP.reduce_all(a, _n)
+            return anyall
         if name == "prod":
             def prod(t, **kw):
                 if isinstance(t, AArr):
@@ -936,6 +960,8 @@ class Interp:
         return str(v)
 
     def iterate(self, v):
+        if isinstance(v, PyModel):
+            return list(iter(v))
         if isinstance(v, Obj):
             r = self.p.find_attr(v.cls, "__iter__")
             if not r:
@@ -1048,6 +1074,9 @@ class Interp:
         pass
 
     def set_item(self, o, k, val, node):
+        if isinstance(o, PyModel):
+            o.__setitem__(k, val)
+            return
         if isinstance(o, Obj):
             r = self.p.find_attr(o.cls, "__setitem__")
             if not r:
@@ -1332,6 +1361,8 @@ class Interp:
         return slice(g(n.lower), g(n.upper), g(n.step))
 
     def get_item(self, o, k, node):
+        if isinstance(o, PyModel):
+            return o.__getitem__(k)
         if isinstance(o, Obj):
             r = self.p.find_attr(o.cls, "__getitem__")
             if not r:
